@@ -43,6 +43,19 @@ CHECKS = {
             'behaviour, assumed by the theorems and observed on the implementation.  Trusted: Lean kernel, '
             'reading of the statement, correspondence harness.',
             '§5 C10'),
+    'C20': ('correspondence',
+            'Lean 4 theorems over the transform model (setter = store; dispatch stored value), delivery '
+            'exactness inherited from the dispatcher theorems; tied to spatial.py by correspondence',
+            'Theorems in lean/DesperProofs/Props/C20.lean: 2D rotation stored modulo 360 in [0,360), other '
+            'values stored verbatim, a setter notifies exactly the listeners of the matching event once '
+            'with the value a read returns afterwards and leaves the other properties alone, constructor '
+            'stores the same way.  Correspondence: several real Transform2D/3D objects, out-of-range and '
+            'negative rotations, all properties of all transforms read back after every assignment, '
+            'identity of the notified object with the stored one.',
+            'Trusted: Lean kernel, reading of the statement, correspondence harness.  Float `%` rounding is '
+            'not modelled: rotations are multiples of 1/2 degree (exact in binary floating point).  '
+            'Listeners are passive in the theorem.',
+            '§5 C20'),
 }
 
 NOT_YET = 'check not built yet (work in progress; see DESIGN.md §5 for the plan)'
